@@ -992,6 +992,32 @@ def extra_C17(eng, cases):
         if again.get(c.id) != eng.iblocks.get(c.id):
             eng.fail(c, "repeating the history in another process gives a different result")
             break
+    # 6. automatic-timestamp convenience calls vs the explicit-timestamp calls the model says they stand for
+    #    (Paths.explicit_of; theorem C17_explicit_path_equivalent): same results and the same file
+    auto = [c for c in mux if any(l.startswith("o ev ") or l.startswith("o ea ") for l in c.lines)]
+    if auto:
+        p = subprocess.run([DRIVER, "explicit"], input="".join(c.text() for c in auto).encode(), stdout=subprocess.PIPE,
+                           stderr=subprocess.PIPE, timeout=900)
+        xb = parse_blocks(p.stdout.decode())
+        pairs = []
+        for c in auto:
+            xo = [l for l in xb.get(c.id, []) if l.startswith("o ")]
+            if not xo:
+                continue
+            v = c.clone(c.id + "_explicit")
+            head = [l for l in v.lines if not l.startswith("o ")]
+            v.lines = head + xo
+            pairs.append((c, v))
+        ib = eng.run_impl([v for _, v in pairs])
+        eng.ev["evaluations"] += len(pairs)
+        eng.ev.setdefault("distribution", {})["explicit_path_pairs"] = len(pairs)
+        for c, v in pairs:
+            b1, b2 = eng.iblocks.get(c.id, []), ib.get(v.id, [])
+            k = len([l for l in v.lines if l.startswith("o ")])
+            r1 = [l for l in b1 if l.startswith("r ")][:k]
+            r2 = [l for l in b2 if l.startswith("r ")][:k]
+            if sink_of(b1) != sink_of(b2) or r1 != r2:
+                eng.fail(c, "automatic-timestamp convenience calls and the equivalent explicit-timestamp calls give different results or files")
     # 5. source scan (evidence only; no verdict)
     hits = []
     for root_, _, files in os.walk("/repo/src"):
@@ -1070,6 +1096,11 @@ def is_opus_multi(c, d):
     return bool(w) and w[2] == "opus" and int(w[4], 16) > 2
 
 
+def is_opus_zero(c, d):
+    w = builder_words(c, ("audio", "setaudio"))
+    return bool(w) and w[2] == "opus" and int(w[4], 16) == 0
+
+
 def is_frag_av1_hevc(c, d):
     if c.kind != "frag":
         return False
@@ -1143,6 +1174,7 @@ KNOWN_CLASSES = {
     "c19_clause_7_progressive": kc_c19(7, lambda c, d: c.kind == "mux"),
     "c19_clause_10_vp9": kc_c19(10, is_vp9),
     "c19_clause_11_opus_multichannel": kc_c19(11, is_opus_multi),
+    "c19_clause_11_opus_zero_channels": kc_c19(11, is_opus_zero),
     "c19_clause_10_frag_av1_hevc": kc_c19(10, is_frag_av1_hevc),
     "c19_frag_dims_wrap": lambda eng, fl: (fl.get("detail") or {}).get("frag") and (fl.get("detail") or {}).get("clause") in (3, 9) and frag_dims_big(fl["case"]),
     "c16_duration_wrap": kc_duration_wrap,
@@ -1173,7 +1205,7 @@ PROPS.update({
     "C15": dict(fams=[("fam_mux_av", 250, 5000)], checks=["C15"], obs=obs_order, components=["K7"], nontrivial=nt_finished),
     "C16": dict(fams=[("fam_mux_clean", 150, 3000), ("fam_mux_av", 100, 2000)], checks=["C16"], obs=obs_all,
                 components=["K7", "K8"], nontrivial=nt_finished),
-    "C17": dict(fams=[("fam_mux_basic", 120, 1500), ("fam_mux_av", 60, 800), ("fam_frag", 60, 800)], checks=[], extra=extra_C17,
+    "C17": dict(fams=[("fam_mux_basic", 120, 1500), ("fam_mux_av", 60, 800), ("fam_frag", 60, 800), ("fam_encode_paths", 150, 4000)], checks=[], extra=extra_C17,
                 obs=obs_none, components=["K7", "K8"], nontrivial=lambda c, b: True, no_shrink=True),
     "C18": dict(fams=[("fam_mux_basic", 200, 4000), ("fam_mux_clean", 100, 2000)], checks=["C18"], extra=extra_C18,
                 obs=obs_meta, components=["K7"], nontrivial=nt_finished, relative=True),
@@ -1724,3 +1756,5 @@ PROPS["C05"]["fams"] = PROPS["C05"]["fams"] + [("fam_exh_contract", 0, 50000)]
 for _p in ("C01", "C02", "C03", "C07", "C09", "C15", "C16", "C19"):
     PROPS[_p]["relative"] = True
 PROPS["C09"]["fams"] = PROPS["C09"]["fams"] + [("fam_reject_matrix", 150, 3000)]
+for _p in ("C03", "C04", "C05", "C06", "C09", "C16"):
+    PROPS[_p]["fams"] = PROPS[_p]["fams"] + [("fam_reject_gap", 60, 1500)]
